@@ -21,6 +21,11 @@ Fixpoint pcms (m : ms) : N * N :=
   | MVerify x => (fst (pcms x), 0)
   | MDupIf x => (fst (pcms x), 0)
   | MNonZero x => (fst (pcms x), 0)
+  | MAndV x y => (fst (pcms x) + fst (pcms y), fst (pcms x) + snd (pcms y))
+  | MAndB x y => (fst (pcms x) + fst (pcms y), snd (pcms x) + snd (pcms y))
+  | MOrB x z => (N.max (snd (pcms x) + fst (pcms z)) (fst (pcms x) + snd (pcms z)), snd (pcms x) + snd (pcms z))
+  | MOrC x z => (N.max (fst (pcms x)) (snd (pcms x) + fst (pcms z)), 0)
+  | MAndOr a b c => (N.max (fst (pcms a) + fst (pcms b)) (snd (pcms a) + fst (pcms c)), snd (pcms a) + snd (pcms c))
   | MOrD x z => (N.max (fst (pcms x)) (snd (pcms x) + fst (pcms z)), snd (pcms x) + snd (pcms z))
   | MOrI x z => (N.max (fst (pcms x)) (fst (pcms z)), N.max (snd (pcms x)) (snd (pcms z)))
   | _ => (ast_cms m, ast_cms m)
@@ -254,11 +259,165 @@ Section OpsTrace.
       eapply bnd_if; [reflexivity | apply if_cond_empty |]. cbn [xorb if_branch app]. apply bnd_nil.
   Qed.
 
+  (* ---- two and three children ---- *)
+  Definition tsel (d : bool) (m : ms) : list wit := if d then dsat m else sat m.
+  Definition msel (d : bool) (p : N * N) : N := if d then snd p else fst p.
+  Definition TSi (m : ms) (b : base) : Prop :=
+    forall d c w rest al, In w (tsel d m) -> bnd e (enc ke m) (mkSt (instk b c w rest) al) (msel d (pcms m)).
+  Lemma tsi_of m b :
+    (forall c w rest al,
+       (In w (sat m) -> bnd e (enc ke m) (mkSt (instk b c w rest) al) (fst (pcms m))) /\
+       (In w (dsat m) -> bnd e (enc ke m) (mkSt (instk b c w rest) al) (snd (pcms m)))) -> TSi m b.
+  Proof. intros H d c w rest al Hin. destruct d; [exact (proj2 (H c w rest al) Hin) | exact (proj1 (H c w rest al) Hin)]. Qed.
+
+  Lemma postB x tx : type_of x = ROk tx -> c_base (t_corr tx) = BB -> wf e ke x -> no_multi x ->
+    forall d w rest al, In w (tsel d x) -> exists v, exec e (enc ke x) (mkSt (w ++ rest) al) = Ok (mkSt (v :: rest) al).
+  Proof.
+    intros Hx Hb Hw Hn d w rest al Hin. destruct (theoremA_closed e ke A HA Hse x tx Hx Hw Hn) as [Hg _].
+    unfold good in Hg. rewrite Hb in Hg.
+    destruct d; [exists []; exact (proj2 Hg _ _ _ Hin) | destruct (proj1 Hg _ rest al Hin) as [v [Hr _]]; eauto].
+  Qed.
+  Lemma x_exit x tx : type_of x = ROk tx -> c_base (t_corr tx) = BB -> c_unit (t_corr tx) = true -> wf e ke x -> no_multi x ->
+    forall d w rest al, In w (tsel d x) ->
+    exec e (enc ke x) (mkSt (w ++ rest) al) = Ok (mkSt ((if d then [] else [1]) :: rest) al).
+  Proof.
+    intros Hx Hb Hu Hw Hn d w rest al Hin. destruct (theoremA_closed e ke A HA Hse x tx Hx Hw Hn) as [Hg _].
+    unfold good in Hg. rewrite Hb, Hu in Hg.
+    destruct d; [exact (proj2 Hg _ _ _ Hin)|]. destruct (proj1 Hg _ rest al Hin) as [v [Hr [_ [_ Hv]]]].
+    rewrite (Hv eq_refl) in Hr. exact Hr.
+  Qed.
+
+  (* X : B, then Y : W on top of X's result, then one opcode *)
+  Lemma seqBW x y tx o : type_of x = ROk tx -> c_base (t_corr tx) = BB -> wf e ke x -> no_multi x -> is_cms o = false ->
+    TSi x BB -> TSi y BW ->
+    forall dx dy a b rest al, In a (tsel dx x) -> In b (tsel dy y) ->
+    bnd e (enc ke x ++ enc ke y ++ [IOp o]) (mkSt ((a ++ b) ++ rest) al) (msel dx (pcms x) + msel dy (pcms y)).
+  Proof.
+    intros Hx Hb Hw Hn Ho Ix Iy dx dy a b rest al Ha Hb'. rewrite <- app_assoc.
+    destruct (postB x tx Hx Hb Hw Hn dx a (b ++ rest) al Ha) as [v Hr].
+    eapply bnd_app; [exact Hr | exact (Ix dx [] a (b ++ rest) al Ha) |].
+    apply bnd_app_glue; [cbn [cbl cb_instr]; rewrite Ho; reflexivity | exact (Iy dy v b rest al Hb')].
+  Qed.
+
+  (* X : Bdu, then NOTIF T [ELSE E] ENDIF: X dissatisfied runs T, X satisfied runs E *)
+  Lemma seq_notif x tx T E : type_of x = ROk tx -> c_base (t_corr tx) = BB -> c_unit (t_corr tx) = true ->
+    wf e ke x -> no_multi x -> TSi x BB ->
+    forall d a r rest al n, In a (tsel d x) ->
+    bnd e (if d then T else match E with Some el => el | None => [] end) (mkSt (r ++ rest) al) n ->
+    bnd e (enc ke x ++ [IIf true T E]) (mkSt ((a ++ r) ++ rest) al) (msel d (pcms x) + n).
+  Proof.
+    intros Hx Hb Hu Hw Hn Ix d a r rest al n Ha Hbr. rewrite <- app_assoc.
+    eapply bnd_app; [exact (x_exit x tx Hx Hb Hu Hw Hn d a (r ++ rest) al Ha) | exact (Ix d [] a (r ++ rest) al Ha) |].
+    destruct d.
+    - eapply bnd_if; [reflexivity | apply if_cond_empty |]. cbn [xorb if_branch stk alt]. rewrite app_nil_r. exact Hbr.
+    - eapply bnd_if; [reflexivity | apply if_cond_one |]. cbn [xorb if_branch stk alt]. rewrite app_nil_r. exact Hbr.
+  Qed.
+
+  Ltac two_children IHx IHz Ht Hwf Hnm Hms tx tz Hx Hz Hwx Hwz Hnx Hnz Ix Iz :=
+    cbn [type_of] in Ht; apply rbind_ok in Ht; destruct Ht as [tx [Hx Ht]];
+    apply rbind_ok in Ht; destruct Ht as [tz [Hz Ht]];
+    cbn [wf no_multi multi_small] in Hwf, Hnm, Hms; destruct Hwf as [Hwx Hwz]; destruct Hnm as [Hnx Hnz];
+    apply andb_prop in Hms; destruct Hms as [?Hmx ?Hmz];
+    pose proof (tsi_of _ _ (IHx tx Hx Hwx Hnx Hmx)) as Ix; pose proof (tsi_of _ _ (IHz tz Hz Hwz Hnz Hmz)) as Iz.
+
+  Lemma ts_and_v x y : TS x -> TS y -> TS (MAndV x y).
+  Proof.
+    intros IHx IHy t Ht Hwf Hnm Hms. two_children IHx IHy Ht Hwf Hnm Hms tx t2 Hx Hy Hwx Hwy Hnx Hny Ix Iy.
+    destruct (theoremA_closed e ke A HA Hse x tx Hx Hwx Hnx) as [Hg _].
+    assert (Hb : c_base (t_corr tx) = BV /\ c_base (t_corr t2) <> BW /\ c_base (t_corr t) = c_base (t_corr t2)).
+    { destruct tx as [[bx ix dx ux] mx]; destruct t2 as [[b2 i2 d2 u2] m2]; unf Ht.
+      destruct bx, b2; try discriminate; inversion Ht; subst; cbn; repeat split; first [reflexivity | discriminate]. }
+    destruct Hb as [Hbx [Hby Hbt]]. unfold good in Hg. rewrite Hbx in Hg. rewrite Hbt. rewrite Hbx in Ix.
+    intros c w rest al. rewrite (instk_nw _ c w rest Hby). cbn [enc pcms fst snd]. rewrite sat_and_v, dsat_and_v.
+    split; intros Hin; apply in_cross in Hin; destruct Hin as [a [b [Ha [Hb' ->]]]]; rewrite <- app_assoc;
+      (eapply bnd_app; [exact (Hg a (b ++ rest) al Ha) | exact (Ix false c a (b ++ rest) al Ha) |]).
+    - pose proof (Iy false c b rest al Hb') as B. rewrite (instk_nw _ _ _ _ Hby) in B. exact B.
+    - pose proof (Iy true c b rest al Hb') as B. rewrite (instk_nw _ _ _ _ Hby) in B. exact B.
+  Qed.
+
+  Lemma ts_and_b x y : TS x -> TS y -> TS (MAndB x y).
+  Proof.
+    intros IHx IHy t Ht Hwf Hnm Hms. two_children IHx IHy Ht Hwf Hnm Hms tx t2 Hx Hy Hwx Hwy Hnx Hny Ix Iy.
+    assert (Hb : c_base (t_corr tx) = BB /\ c_base (t_corr t2) = BW /\ c_base (t_corr t) = BB).
+    { destruct tx as [[bx ix dx ux] mx]; destruct t2 as [[b2 i2 d2 u2] m2]; unf Ht.
+      destruct bx, b2; try discriminate; inversion Ht; subst; auto. }
+    destruct Hb as [Hbx [Hby Hbt]]. rewrite Hbt. rewrite Hbx in Ix. rewrite Hby in Iy.
+    intros c w rest al. cbn [instk enc pcms fst snd]. unfold all_sat, all_dsat. rewrite sd_and_b. cbn [fst snd].
+    split; intros Hin; apply in_cross in Hin; destruct Hin as [a [b [Ha [Hb' ->]]]].
+    - exact (seqBW x y tx OP_BOOLAND Hx Hbx Hwx Hnx eq_refl Ix Iy false false a b rest al Ha Hb').
+    - exact (seqBW x y tx OP_BOOLAND Hx Hbx Hwx Hnx eq_refl Ix Iy true true a b rest al Ha Hb').
+  Qed.
+
+  Lemma ts_or_b x y : TS x -> TS y -> TS (MOrB x y).
+  Proof.
+    intros IHx IHy t Ht Hwf Hnm Hms. two_children IHx IHy Ht Hwf Hnm Hms tx t2 Hx Hy Hwx Hwy Hnx Hny Ix Iy.
+    assert (Hb : c_base (t_corr tx) = BB /\ c_base (t_corr t2) = BW /\ c_base (t_corr t) = BB).
+    { destruct tx as [[bx ix dx ux] mx]; destruct t2 as [[b2 i2 d2 u2] m2]; unf Ht.
+      destruct dx; cbn [negb] in Ht; try discriminate. destruct d2; cbn [negb] in Ht; try discriminate.
+      destruct bx, b2; try discriminate; inversion Ht; subst; auto. }
+    destruct Hb as [Hbx [Hby Hbt]]. rewrite Hbt. rewrite Hbx in Ix. rewrite Hby in Iy.
+    intros c w rest al. cbn [instk enc pcms fst snd]. unfold all_sat, all_dsat. rewrite sd_or_b. cbn [fst snd].
+    split; intros Hin.
+    - apply in_app_or in Hin. destruct Hin as [Hin|Hin]; apply in_cross in Hin; destruct Hin as [a [b [Ha [Hb' ->]]]].
+      + eapply bnd_le; [exact (seqBW x y tx OP_BOOLOR Hx Hbx Hwx Hnx eq_refl Ix Iy true false a b rest al Ha Hb') | cbn [msel]; lia].
+      + eapply bnd_le; [exact (seqBW x y tx OP_BOOLOR Hx Hbx Hwx Hnx eq_refl Ix Iy false true a b rest al Ha Hb') | cbn [msel]; lia].
+    - apply in_cross in Hin. destruct Hin as [a [b [Ha [Hb' ->]]]].
+      exact (seqBW x y tx OP_BOOLOR Hx Hbx Hwx Hnx eq_refl Ix Iy true true a b rest al Ha Hb').
+  Qed.
+
+  Lemma ts_or_c x z : TS x -> TS z -> TS (MOrC x z).
+  Proof.
+    intros IHx IHz t Ht Hwf Hnm Hms. two_children IHx IHz Ht Hwf Hnm Hms tx tz Hx Hz Hwx Hwz Hnx Hnz Ix Iz.
+    assert (Hb : c_base (t_corr tx) = BB /\ c_unit (t_corr tx) = true /\ c_base (t_corr tz) = BV /\ c_base (t_corr t) = BV).
+    { destruct tx as [[bx ix dx ux] mx]; destruct tz as [[b2 i2 d2 u2] m2]; unf Ht.
+      destruct dx; cbn [negb] in Ht; try discriminate. destruct ux; cbn [negb] in Ht; try discriminate.
+      destruct bx, b2; try discriminate; inversion Ht; subst; auto. }
+    destruct Hb as [Hbx [Hux [Hbz Hbt]]]. rewrite Hbt. rewrite Hbx in Ix. rewrite Hbz in Iz.
+    intros c w rest al. cbn [instk enc pcms fst snd].
+    split; intros Hin.
+    - rewrite sat_or_c in Hin. apply in_app_or in Hin. destruct Hin as [Hin|Hin].
+      + pose proof (seq_notif x tx (enc ke z) None Hx Hbx Hux Hwx Hnx Ix false w [] rest al 0 Hin (bnd_nil e _)) as B.
+        rewrite app_nil_r in B. eapply bnd_le; [exact B | cbn [msel]; lia].
+      + apply in_cross in Hin. destruct Hin as [a [b [Ha [Hb' ->]]]].
+        eapply bnd_le; [exact (seq_notif x tx (enc ke z) None Hx Hbx Hux Hwx Hnx Ix true a b rest al _ Ha (Iz false c b rest al Hb')) | cbn [msel]; lia].
+    - unfold all_dsat in Hin. cbn [sd] in Hin. destruct (sd ke A x), (sd ke A z). cbn in Hin. contradiction.
+  Qed.
+
+  Lemma ts_andor a b c0 : TS a -> TS b -> TS c0 -> TS (MAndOr a b c0).
+  Proof.
+    intros IHa IHb IHc t Ht Hwf Hnm Hms.
+    cbn [type_of] in Ht. apply rbind_ok in Ht. destruct Ht as [ta [Ha Ht]].
+    apply rbind_ok in Ht. destruct Ht as [tb [Hb Ht]]. apply rbind_ok in Ht. destruct Ht as [tc [Hc Ht]].
+    cbn [wf no_multi multi_small] in Hwf, Hnm, Hms. destruct Hwf as [Hwa [Hwb Hwc]]. destruct Hnm as [Hna [Hnb Hnc]].
+    apply andb_prop in Hms. destruct Hms as [Hms Hmc]. apply andb_prop in Hms. destruct Hms as [Hma Hmb].
+    pose proof (tsi_of _ _ (IHa ta Ha Hwa Hna Hma)) as Ia. pose proof (tsi_of _ _ (IHb tb Hb Hwb Hnb Hmb)) as Ib.
+    pose proof (tsi_of _ _ (IHc tc Hc Hwc Hnc Hmc)) as Ic.
+    assert (HB : c_base (t_corr ta) = BB /\ c_unit (t_corr ta) = true /\ c_base (t_corr tb) <> BW /\ c_base (t_corr tc) <> BW
+                 /\ c_base (t_corr t) <> BW).
+    { destruct ta as [[ba ia da ua] ma], tb as [[bb ib db ub] mb], tc as [[bc ic dc uc] mc]. unf Ht.
+      destruct da; cbn [negb] in Ht; try discriminate. destruct ua; cbn [negb] in Ht; try discriminate.
+      destruct ba, bb, bc; try discriminate; inversion Ht; subst; cbn; repeat split; first [reflexivity | discriminate]. }
+    destruct HB as [Hba [Hua [Hbb [Hbc Hbt]]]]. rewrite Hba in Ia.
+    intros c w rest al. rewrite (instk_nw _ c w rest Hbt). cbn [enc pcms fst snd]. unfold all_sat, all_dsat. rewrite sd_andor. cbn [fst snd].
+    assert (Jb : forall d w0, In w0 (tsel d b) -> bnd e (enc ke b) (mkSt (w0 ++ rest) al) (msel d (pcms b))).
+    { intros d w0 Hw0. pose proof (Ib d c w0 rest al Hw0) as B. rewrite (instk_nw _ _ _ _ Hbb) in B. exact B. }
+    assert (Jc : forall d w0, In w0 (tsel d c0) -> bnd e (enc ke c0) (mkSt (w0 ++ rest) al) (msel d (pcms c0))).
+    { intros d w0 Hw0. pose proof (Ic d c w0 rest al Hw0) as B. rewrite (instk_nw _ _ _ _ Hbc) in B. exact B. }
+    split; intros Hin.
+    - apply in_app_or in Hin. destruct Hin as [Hin|Hin]; apply in_cross in Hin; destruct Hin as [x [y [Hx' [Hy' ->]]]].
+      + eapply bnd_le; [exact (seq_notif a ta (enc ke c0) (Some (enc ke b)) Ha Hba Hua Hwa Hna Ia false x y rest al _ Hx' (Jb false y Hy')) | cbn [msel]; lia].
+      + eapply bnd_le; [exact (seq_notif a ta (enc ke c0) (Some (enc ke b)) Ha Hba Hua Hwa Hna Ia true x y rest al _ Hx' (Jc false y Hy')) | cbn [msel]; lia].
+    - apply in_cross in Hin. destruct Hin as [x [y [Hx' [Hy' ->]]]].
+      exact (seq_notif a ta (enc ke c0) (Some (enc ke b)) Ha Hba Hua Hwa Hna Ia true x y rest al _ Hx' (Jc true y Hy')).
+  Qed.
+
   Theorem ops_trace_table : forall m, TS m.
   Proof.
     induction m using ms_ind'; try (apply ts_fallback; reflexivity);
       first [ apply ts_alt; assumption | apply ts_swap; assumption | apply ts_check; assumption
             | apply ts_dupif; assumption | apply ts_verify; assumption | apply ts_nonzero; assumption
-            | apply ts_zne; assumption | apply ts_or_d; assumption | apply ts_or_i; assumption ].
+            | apply ts_zne; assumption | apply ts_or_d; assumption | apply ts_or_i; assumption
+            | apply ts_and_v; assumption | apply ts_and_b; assumption | apply ts_or_b; assumption
+            | apply ts_or_c; assumption | apply ts_andor; assumption ].
   Qed.
 End OpsTrace.
